@@ -1390,6 +1390,94 @@ def _r07e(chk, repo) -> None:
     chk.floor("R07e.left_strip_sites", 1)
 
 
+JINJA_T = "src/sqlfluff/core/templaters/jinja.py"
+
+
+def _r07g(chk, repo) -> None:
+    f = repo.fn(JINJA_T, "JinjaTemplater._handle_unreached_code")
+    cfg = cfg_of(f)
+    rd = cfg.reaching()
+    stores = [st for st in walk_local(f) if isinstance(st, ast.Assign) and len(st.targets) == 1 and isinstance(st.targets[0], ast.Attribute) and st.targets[0].attr == "alternate_code" and isinstance(st.value, ast.Name)]
+    deltas = []
+    for st in walk_local(f):
+        if isinstance(st, ast.Assign) and len(st.targets) == 1 and isinstance(st.targets[0], ast.Subscript) and "delta" in norm(st.targets[0].value):
+            lens = [c.args[0] for c in ast.walk(st.value) if isinstance(c, ast.Call) and call_name(c) == "len" and c.args and isinstance(c.args[0], ast.Name)]
+            deltas.append((st, lens))
+    chk.count("R07g.alternate_code_stores", len(stores))
+    chk.count("R07g.delta_stores", len(deltas))
+    if not stores or not deltas:
+        raise AnalysisError("R07g: _handle_unreached_code no longer stores alternate_code from a local and a length delta next to it; re-confirm the anchor by hand")
+    for st in stores:
+        v = st.value.id
+        dv = {id(d.node) for d in rd.defs_at(st, v)}
+        partner = [(ds, ln) for ds, lens in deltas for ln in lens if ln.id == v and (cfg.reaches(ds, st) or cfg.reaches(st, ds))]
+        chk.require(bool(partner), "R07g", st, f"no length delta is recorded from `{v}`, the text rendered in place of the tag", detail="override tag: a delta is recorded for the rendered text")
+        for ds, ln in partner:
+            dd = {id(d.node) for d in rd.defs_at(ds, v)}
+            chk.require(
+                dd == dv, "R07g", ds,
+                f"the length delta of an overridden tag is taken from `{v}` as it is at `{short(ds, 40)}`, but the text stored as alternate_code is `{v}` after a further change: the delta is "
+                "off by the difference, and every source slice after that tag in the variant is shifted",
+                detail="override tag: delta measured on the text that is rendered",
+            )
+
+
+def _r07h(chk, repo) -> None:
+    from ..idioms import conditions_at
+
+    f = repo.fn(JINJA_T, "JinjaTemplater._rectify_templated_slices")
+    cfg = cfg_of(f)
+    accs = {st.target.id for st in walk_local(f) if isinstance(st, ast.AugAssign) and isinstance(st.target, ast.Name)}
+    accs |= {st.targets[0].id for st in walk_local(f) if isinstance(st, ast.Assign) and len(st.targets) == 1 and isinstance(st.targets[0], ast.Name) and isinstance(st.value, ast.Constant) and st.value.value == 0}
+    carried = sorted(a for a in accs if any(isinstance(st, ast.AugAssign) and isinstance(st.target, ast.Name) and st.target.id == a for st in walk_local(f)))
+    if len(carried) != 1:
+        raise AnalysisError(f"R07h: expected one running delta in _rectify_templated_slices, found {carried}; re-confirm the anchor by hand")
+    acc = carried[0]
+    n = 0
+    for c in [c for c in ast.walk(f) if isinstance(c, ast.Call) and last_attr(c) == "_replace"]:
+        sl = None
+        for k in c.keywords:
+            if k.arg == "source_slice":
+                sl = k.value
+        if sl is None:
+            continue
+        st = cfg.stmt_of(c)
+        if isinstance(sl, ast.Name):
+            os_ = origins(cfg, sl, st)
+            sl = os_[0].expr if len(os_) == 1 and os_[0].kind == "expr" else sl
+        if not (isinstance(sl, ast.Call) and call_name(sl) == "slice" and len(sl.args) == 2):
+            raise AnalysisError(f"R07h: cannot read the adjusted source slice {short(sl, 50)}; re-confirm the anchor by hand")
+        n += 1
+        eqs = []
+        for e, pol in conditions_at(cfg, st):
+            if pol and isinstance(e, ast.Compare) and len(e.ops) == 1 and isinstance(e.ops[0], ast.Eq):
+                eqs.append((e.left, e.comparators[0]))
+
+        def moves(b, depth=0) -> bool:
+            if any(isinstance(x, ast.Name) and x.id == acc for x in ast.walk(b)):
+                return True
+            if isinstance(b, ast.Name) and depth < 2:
+                for l, r in eqs:
+                    if isinstance(l, ast.Name) and l.id == b.id and moves(r, depth + 1):
+                        return True
+                    if isinstance(r, ast.Name) and r.id == b.id and moves(l, depth + 1):
+                        return True
+                for o in origins(cfg, b, st):
+                    if o.kind == "expr" and moves(o.expr, depth + 1):
+                        return True
+            return False
+
+        bad = [w for w, b in (("start", sl.args[0]), ("stop", sl.args[1])) if not moves(b)]
+        chk.require(
+            not bad, "R07h", c,
+            f"the {' and '.join(bad)} of an adjusted source slice ({short(sl, 60)}) does not move with `{acc}`, the deltas carried from earlier overridden tags: from the second rewritten tag "
+            "of a variant on, the slice ends before it starts / points outside the file",
+            detail="rectify: both ends of an adjusted slice carry the running delta",
+        )
+    chk.count("R07h.adjusted_slices", n)
+    chk.floor("R07h.adjusted_slices", 2)
+
+
 def _r07f(chk, repo) -> None:
     f = repo.fn(PYT, "PythonTemplater._slice_template")
     cfg = cfg_of(f)
@@ -1496,6 +1584,10 @@ def run(chk) -> None:
     chk.rule("R07f", "the raw text the python templater records for a replacement field is the field as Python's format grammar writes it: '{' name ['!' conversion] [':' spec] '}', in that order")
     _r07e(chk, repo)
     _r07f(chk, repo)
+    chk.rule("R07g", "the length delta recorded for an overridden tag of a speculative variant is measured on the very text that is rendered in its place: the value whose length enters length_deltas[...] and the value stored as alternate_code have the same definitions")
+    chk.rule("R07h", "when a variant's slices are mapped back to the source, both ends of every adjusted source slice move with the deltas carried so far")
+    _r07g(chk, repo)
+    _r07h(chk, repo)
     chk.assumptions.append("assert statements are executed (the interpreter is not run with -O); CPython ast gives the program's syntax faithfully")
     chk.note(
         "Partial claim: the two tiling clauses hold for every TemplatedFile object because its constructor enforces them and nothing bypasses it. "
@@ -1558,6 +1650,24 @@ _FINAL_FULL = (
 )
 
 VARIANTS: List[Variant] = [
+    Variant(
+        "override-tag-changed-after-its-delta-was-taken", JINJA_T,
+        "                    tracer_trace.raw_slice_info[\n                        raw_file_slice\n                    ].alternate_code = new_source\n                    override_raw_slices.append(branch)\n                    length_deltas[raw_file_slice.source_idx] = len(new_source) - len(\n                        raw_file_slice.raw\n                    )\n",
+        "                    length_deltas[raw_file_slice.source_idx] = len(new_source) - len(\n                        raw_file_slice.raw\n                    )\n                    if raw_file_slice.raw.endswith(\"-%}\"):\n                        new_source = new_source[:-2] + \"-%}\"\n                    tracer_trace.raw_slice_info[\n                        raw_file_slice\n                    ].alternate_code = new_source\n                    override_raw_slices.append(branch)\n",
+        "R07g", "_handle_unreached_code", "seeded C07-5",
+    ),
+    Variant(
+        "stretched-slice-forgets-the-carried-delta", JINJA_T,
+        "                                tfs.source_slice.stop + carried_delta - d,\n",
+        "                                tfs.source_slice.stop - d,\n",
+        "R07h", "_rectify_templated_slices", "seeded C01-6 (same effect): the second rewritten tag of a variant gets an inverted slice",
+    ),
+    Variant(
+        "quiet-stretched-slice-from-the-matched-index", JINJA_T,
+        "                                tfs.source_slice.start + carried_delta,\n                                tfs.source_slice.stop + carried_delta - d,\n",
+        "                                idx,\n                                tfs.source_slice.stop + carried_delta - d,\n",
+        "QUIET", None, "R07h: the start written as the index it was just tested equal to",
+    ),
     Variant(
         "left-strip-not-handled-for-raw-begin", TRACER,
         '            if elem_type.endswith("_begin"):\n',
